@@ -382,7 +382,7 @@ def run(ctx):
         phase[name] = round(time.time() - tph[0], 1)
         tph[0] = time.time()
 
-    vlib.proof_stage(ctx, PROP_FILE, [], extra_targets=["Corr/C17.vo", "Corr/C17a.vo"])
+    vlib.proof_stage(ctx, PROP_FILE, [], extra_targets=["Corr/C17.vo", "Corr/C17a.vo", "Corr/C17c.vo"])
     ok, log = vlib.build_s4()
     if not ok:
         ctx.obligation_broken("build", "s4 binary", log)
@@ -925,6 +925,47 @@ def run(ctx):
                 cf["drop_distance"] = d
                 sconfigs.append(cf)
                 break
+    # the Coq model itself on these files (x4): at lag RECORDED_CAP + 2 no release fails (the hypothesis derr = 0 of
+    # C17_cur_no_failed_release_bounded), and the python transliteration used for the large sizes agrees with it
+    scases = [dict(cf, mult=4) for cf in sconfigs]
+    smodel, serr = model_rows(scases, H_rec, os.path.join(CACHE, "cases", "C17", "S")) if scases else ([], "")
+    cs_model_cmp = 0
+    if smodel is None:
+        ctx.obligation_broken("correspondence", "model evaluation (coqc on the slow-consumer cases)", serr)
+        smodel = []
+    for c, m in zip(scases, smodel):
+        cs_model_cmp += 1
+        sim = U.sim_cur(layout_of(c), c["bs"], c["container"] != "plain", H_rec)
+        if m["derr_hi"] != 0 or sim != tuple(m["hi"]) + (m["derr_hi"],):
+            ctx.obligation_broken("correspondence", "Model.Retain at lag %d on a file outside the recorded F9a class: derr must be 0 and equal the python transliteration" % H_rec,
+                                  json.dumps(dict(bs=c["bs"], container=c["container"], drop_distance=c["drop_distance"], coq=m, python=sim, base=c["base"][:60])))
+            break
+    # ... and the geometric predicate of C17_far_no_failed_release (RetainFar.farb) against the harness's drop distance:
+    # farb Hrec and farb d hold, farb (d + 1) does not; the model has derr = 0 at lags Hrec and d and derr > 0 at d + 1
+    cs_far_cmp = 0
+    if scases:
+        fhdr = (vlib.COQ_PRINT_HDR + "From Coq Require Import List NArith Bool.\nImport ListNotations.\n"
+                "From S4.Corr Require Import C17 C17c.\nOpen Scope N_scope.\n")
+        frows = []
+        for c in scases:
+            frows.append("(%s, [], 0%%nat, %d, %s, %d, %d)" % (coq_layout(layout_of(c)), c["bs"],
+                         "true" if c["container"] != "plain" else "false", H_rec, U.min_drop_distance(layout_of(c), c["bs"])))
+        ftexts = [fhdr + "Definition cases : list fcase := [\n%s\n].\nEval vm_compute in (rows_far cases).\n" % ";\n".join(frows[k::4]) for k in range(min(4, len(frows)))]
+        fres = vlib.coq_eval_shards(os.path.join(CACHE, "cases", "C17", "F"), ftexts)
+        for k, (rc, o) in enumerate(fres):
+            pairs = vlib.parse_eval_pairs(o) if rc == 0 else None
+            if pairs is None or len(pairs) != len(frows[k::4]):
+                ctx.obligation_broken("correspondence", "model evaluation (coqc on Corr.C17c.rows_far)", o[-2000:])
+                break
+            for c, t in zip(scases[k::4], pairs):
+                cs_far_cmp += 1
+                d4 = U.min_drop_distance(layout_of(c), c["bs"])
+                if not (t[1] == 1 and t[2] == 1 and t[3] == 0 and t[4] == 0 and t[5] == 0 and t[6] > 0):
+                    ctx.obligation_broken("correspondence", "RetainFar.farb / Model.Retain derr vs the harness's drop distance (class predicate of finding F9a and its complement)",
+                                          json.dumps(dict(bs=c["bs"], container=c["container"], drop_distance_x4=d4, H_rec=H_rec,
+                                                          coq_row=dict(farb_Hrec=t[1], farb_d=t[2], farb_d1=t[3], derr_Hrec=t[4], derr_d=t[5], derr_d1=t[6]),
+                                                          base=c["base"][:60])))
+                    break
     sjobs = [(ci, mu, dict(cf, mult=mu)) for ci, cf in enumerate(sconfigs) for mu in mults]
 
     def sjob(j):
@@ -1119,7 +1160,7 @@ def run(ctx):
                       impl_free=[s2[k] for k in MARKS] if s2 else None)
                  for c, m, s, (s2, _p) in list(zip(bcases, model, r1, r2))[:3] + list(zip(bcases, model, r1, r2))[-4:-2]],
         channel_capacity=cap, H=H, recorded_channel_capacity=RECORDED_CAP, window_constants_scraped=list(wc),
-        Cslow_configs=len(sconfigs), Cslow_drop_distances=sorted(cf["drop_distance"] for cf in sconfigs), Cslow_runs_compared=cs_cmp, Cslow_above_model_at_recorded_lag=cs_bad, Cslow_growing=cs_grow,
+        Cslow_configs=len(sconfigs), Cslow_coq_model_compared=cs_model_cmp, Cslow_farb_compared=cs_far_cmp, Cslow_drop_distances=sorted(cf["drop_distance"] for cf in sconfigs), Cslow_runs_compared=cs_cmp, Cslow_above_model_at_recorded_lag=cs_bad, Cslow_growing=cs_grow,
         Cslow_drop_sysline_err_max=cs_err_max,
         B1_exact_compared=b1_cmp, B1_disagreements=b1_dis, B1_rejected_by_blockzero_gate=b1_rejected, B1_not_lagfree=b1_lagged,
         B2_interval_compared=b2_cmp, B2_outside_interval=b2_dis, B2_strictly_above_nolag=b2_strict_inside,
